@@ -29,7 +29,9 @@ def start_roles(F):
                 # &X[n]  |  X.map(|p| p[n])  |  X.map(|p| p.K[n])
                 if a.get("k") == "Index" and L.local_name(a["base"]):
                     roles[L.local_name(a["base"])] = "player#%d" % i
-                elif a.get("k") == "MethodCall" and a["method"] == "map" and L.local_name(a["recv"]):
+                elif a.get("k") == "MethodCall" and a["method"] == "map" and L.local_name(peel_view(a["recv"])):
+                    a = dict(a)
+                    a["recv"] = peel_view(a["recv"])
                     cl = strip(a["args"][0])
                     if cl.get("k") == "Closure":
                         body = strip(cl["body"])
@@ -42,6 +44,14 @@ def start_roles(F):
                 elif L.local_name(a):
                     roles.setdefault(L.local_name(a), roles.get(L.local_name(a)))
     return roles
+
+
+def peel_view(e):
+    """`x.as_ref()` / `x.as_deref()` / `x.clone()` / `x.copied()` view the same value as `x`"""
+    e = strip(e)
+    while e.get("k") == "MethodCall" and e["method"] in ("as_ref", "as_deref", "clone", "copied", "cloned") and not e.get("args"):
+        e = strip(e["recv"])
+    return e
 
 
 def apply_roles(segs, roles):
